@@ -29,8 +29,14 @@ def hook(g, rng):
     if k < 0.55:
         return g.sheet(nunits=rng.choice([1, 1, 2, 3]), depth=rng.randint(1, 3))
 
+    pool = []          # queries already used in this sheet: the same query text comes back in sibling and nested positions
+
     def q(first, var=None):
+        if not first and not var and pool and rng.random() < 0.45:
+            return rng.choice(pool)
         typ, feats = g.query(allow_type=first)
+        if not first and not var:
+            pool.append((None if not first else typ, feats) if not first else (typ, feats))
         if var and rng.random() < 0.7:
             f = rng.choice(['min-width', 'max-width', 'min-height'])
             feats = feats[:1] + [(f, var)] if rng.random() < 0.5 else [(f, var)] + feats[:1]
@@ -64,6 +70,15 @@ def hook(g, rng):
         kids.insert(rng.randint(0, len(kids)), g.decl([]) if rng.random() < 0.5 else g.rule(0, True, []))
     outer = ('media', q(True, var), kids)
     sh = []
+    if not var and rng.random() < 0.5:
+        # two different top-level rules whose bubbled queries are identical, the second one with unconditional declarations of its own
+        qq = ('print' if rng.random() < 0.5 else None, [('min-width', '100px')] if rng.random() < 0.7 else [])
+        if not qq[0] and not qq[1]:
+            qq = ('print', [])
+        r1 = ('rule', g.selectors(False), [('media', qq, [g.decl([])])], {'sp_brace': True})
+        r2 = ('rule', g.selectors(False), [g.decl([]), ('media', qq, [g.decl([])]), g.decl([])], {'sp_brace': True})
+        mid = [g.rule(0, False, [])] if rng.random() < 0.5 else []
+        sh += [r1] + mid + [r2]
     if var:
         sh.append(('var', var, [('num', rng.choice(['5px', '10em', '640px']))]))
     if rng.random() < 0.6 or not all(x[0] == 'rule' for x in kids):
